@@ -197,6 +197,34 @@ fn trigger_due(t: &Trigger, count: &mut u32, row: &Row, g: &Guest) -> bool {
     }
 }
 
+/// Rewrite a schedule so that at most ONE control line is queued at any poll: batches are split into single lines at
+/// consecutive iterations and colliding iterations are moved on. For the checks that order external lines against the
+/// guest's own stores (ports, timer): how several queued lines are spread over polls is C18's subject and the
+/// implementation's choice; with one line per poll every implementation that acts on a queued line at the next poll
+/// behaves alike.
+pub fn one_line_per_poll(events: &mut Vec<Event>) {
+    let mut lines: Vec<(u64, String)> = Vec::new();
+    let mut rest: Vec<Event> = Vec::new();
+    for e in events.drain(..) {
+        match (&e.trig, &e.act) {
+            (Trigger::Iter(k), Action::Lines(ls)) => {
+                for (j, l) in ls.iter().enumerate() {
+                    lines.push((*k + j as u64, l.clone()));
+                }
+            }
+            _ => rest.push(e),
+        }
+    }
+    lines.sort_by_key(|x| x.0); // stable: equal iterations keep their order
+    let mut next_free = 0u64;
+    for (k, l) in lines {
+        let at = k.max(next_free);
+        next_free = at + 1;
+        rest.push(Event { trig: Trigger::Iter(at), act: Action::Lines(vec![l]) });
+    }
+    *events = rest;
+}
+
 /// Run `guest` under `cfg` with `events`; `setup` may adjust the machine after loading.
 pub fn run_sys<O: Observer + 'static>(
     guest: &Guest,
